@@ -1128,6 +1128,7 @@ def plan(tier, seed):
             for cfg in CACHES:
                 n = {"lru-shared": 16, "hybrid-shared": 8, "disk": 4, "disk-nolru": 4}.get(cfg, 2)
                 units += [("memoize", ("memo", cfg, c, n)) for c in range(n)]
+    table(maxd)  # built once here: the runner forks its workers after plan(), so they inherit it copy-on-write
     groups: dict = {}
     for u in units:
         groups.setdefault(u[0], []).append(u)
